@@ -109,9 +109,50 @@ func (e *Engine) finishContracts() (err error) {
 			e.d.add("raw:"+r[1], r[1])
 		}
 	}
+	// lemma functions: a Go function (under the verif tag) whose body is the induction; its verified contract, universally
+	// quantified over its parameters, is available as an axiom
+	var cnames []string
+	for n := range e.contracts {
+		cnames = append(cnames, n)
+	}
+	sort.Strings(cnames)
+	for _, n := range cnames {
+		c := e.contracts[n]
+		if c.Axiomatize == "" {
+			continue
+		}
+		fn := e.funcs[n]
+		m := regexp.MustCompile(`^\[([^\]]+)\]\s+(\S+)\s+(\{.*\})$`).FindStringSubmatch(c.Axiomatize)
+		if fn == nil || m == nil {
+			return fmt.Errorf("axiomatize %s: need a function and \"[group] name {triggers}\"", n)
+		}
+		if len(c.Props) == 0 {
+			return fmt.Errorf("axiomatize %s: the lemma function must be verified under a property", n)
+		}
+		var binders, pre, post []string
+		for _, p := range fn.Params {
+			binders = append(binders, p.Name()+" "+typeKey(p.Type()))
+		}
+		for _, r := range c.Requires {
+			pre = append(pre, "("+r.Src+")")
+		}
+		for _, r := range c.Ensures {
+			post = append(post, "("+r.Src+")")
+		}
+		if len(pre) == 0 {
+			pre = []string{"true"}
+		}
+		txt := "forall " + strings.Join(binders, ", ") + " :: " + m[3] + " " + strings.Join(pre, " && ") + " ==> " + strings.Join(post, " && ")
+		x, err := parseSpec(txt)
+		if err != nil {
+			return fmt.Errorf("axiomatize %s: %v in %s", n, err, txt)
+		}
+		e.axiomDecls = append(e.axiomDecls, &AxiomDecl{Group: m[1], Name: m[2], Clause: Clause{Label: m[2], Src: txt, X: x, Props: c.Props}, Pkg: c.Pkg, Lemma: true, From: []string{"<lemma function " + n + ">"}, ByFunc: n})
+	}
 	for _, a := range e.axiomDecls {
 		st := e.newState()
 		st.noNames = true
+		st.bind = &heapBind{}
 		ctx := &SpecCtx{s: st, vars: map[string]Val{}, pkg: a.Pkg, what: "axiom " + a.Name}
 		t := ctx.evalBool(a.X)
 		for _, c := range st.cmds {
@@ -119,8 +160,23 @@ func (e *Engine) finishContracts() (err error) {
 				return fmt.Errorf("axiom %s depends on program state", a.Name)
 			}
 		}
+		if len(st.bind.ids) > 0 {
+			// the axiom holds in every heap: the heaps it reads are universally quantified with its other variables
+			var hb []string
+			for i, id := range st.bind.ids {
+				hb = append(hb, "(hb_"+sanitize(id)+" "+st.bind.sorts[i]+")")
+			}
+			if strings.HasPrefix(t, "(forall (") {
+				t = "(forall (" + strings.Join(hb, " ") + " " + t[len("(forall ("):]
+			} else {
+				t = "(forall (" + strings.Join(hb, " ") + ") " + t + ")"
+			}
+		}
 		a.term = t
 		if !a.Lemma {
+			e.d.addAxiom(a.Group, a.Name, t)
+		} else if len(a.From) > 0 {
+			// proved (lemmaObligations) from other groups; available as a fact of its own group
 			e.d.addAxiom(a.Group, a.Name, t)
 		}
 	}
@@ -134,6 +190,7 @@ type FuncReport struct {
 	Paths       int
 	Trivial     int
 	Blocking    []*blockSite
+	FeasCalls   int
 }
 
 func (e *Engine) verifyFunc(name string) *FuncReport {
@@ -146,7 +203,18 @@ func (e *Engine) verifyFunc(name string) *FuncReport {
 			Output: "the function named by the contract no longer exists"})
 		return rep
 	}
-	x := &Exec{e: e, root: fn, c: c, siteN: map[string]int{}, sitePos: map[string]int{}, maxSteps: 400000}
+	cases := c.Foreach
+	if len(cases) == 0 {
+		cases = []string{""}
+	}
+	if only := os.Getenv("P9VC_CASE"); only != "" {
+		cases = strings.Fields(only) // debugging aid: restrict a foreach to some cases
+	}
+	var x *Exec
+	var allObls []*Obligation
+	covered, trivial := 0, 0
+	for _, cs := range cases {
+	x = &Exec{e: e, root: fn, c: c, siteN: map[string]int{}, sitePos: map[string]int{}, maxSteps: 400000, caseName: cs}
 	func() {
 		defer func() {
 			if r := recover(); r != nil {
@@ -158,6 +226,17 @@ func (e *Engine) verifyFunc(name string) *FuncReport {
 		}()
 		x.verify()
 	}()
+	if x.covered == 0 && len(x.errs) == 0 && !c.NoReturn && cs != "" {
+		x.obls = append(x.obls, &Obligation{Name: name + "/cover[" + cs + "]", Func: name, Kind: "cover", Goal: "false", Props: c.Props, Status: "failed", Structural: true,
+			Output: "no return path was reached for this case: vacuous verification"})
+	}
+	allObls = append(allObls, x.obls...)
+	rep.Errors = append(rep.Errors, x.errs...)
+	covered += x.covered
+	trivial += x.trivial
+	rep.FeasCalls += x.feasCalls
+	}
+	x.obls, x.errs, x.covered, x.trivial = allObls, nil, covered, trivial
 	if fn.Blocks != nil {
 		nl := len(e.loopsOf(fn))
 		for ord := range c.Loops {
@@ -615,6 +694,16 @@ func main() {
 			fmt.Println("note:", n)
 		}
 		fmt.Printf("%s: %d obligations, %d return paths, %d trivial\n", pos[0], len(rep.Obligations), rep.Paths, rep.Trivial)
+	case "lemmas":
+		obls := e.lemmaObligations(pos[0])
+		os.RemoveAll(filepath.Join(verifDir, "out", "func"))
+		e.solveAll(obls, filepath.Join(verifDir, "out", "func"), 10, 8)
+		for _, o := range obls {
+			if o.Status != "discharged" || *verbose {
+				fmt.Printf("%-10s %-70s %.2fs %s\n", o.Status, o.Name, o.Time, o.Output)
+			}
+		}
+		fmt.Printf("%d lemmas\n", len(obls))
 	case "expected":
 		// (re)writes /verif/expected_obligations.json from the current tree: run after a property is claimed
 		exp := map[string][]string{}
